@@ -336,3 +336,23 @@ def run(repo, rep, tier):  # noqa: F811 -- round-6 shape rules appended to the r
 _ADDR6A = ' Borrowed: R05.14 (nullability of Annotated[Optional[X], ...] positions).'
 EXPLANATION += _ADDR6A
 LEVEL_TEXT += _ADDR6A
+
+
+_run_before_r6b = run
+
+
+def run(repo, rep, tier):  # noqa: F811 -- round-6 remedies (core/round6.py)
+    _run_before_r6b(repo, rep, tier)
+    if getattr(rep, "borrowed", False):
+        return
+    from ..core import round6 as _r6b
+    _r6b.dispatcher_paths_agree(repo, rep, "R13.12")
+    _r6b.format_dialect_tables(repo, rep, "R03.8")
+    _r6b.shared_options_read_through_chain(repo, rep, "R08.9")
+    _r6b.nullability_sites_agree(repo, rep, "R08.10")
+    _r6b.element_positions_nullable(repo, rep, "R05.15")
+
+
+_ADDR6C = '  Borrowed: R13.12, R03.8, R08.9, R08.10, R05.15.'
+EXPLANATION += _ADDR6C
+LEVEL_TEXT += _ADDR6C
